@@ -6,6 +6,7 @@ and query, percent-decode the path, strip the route prefix) and must resolve to 
 for.
 """
 
+import posixpath
 import urllib.parse
 
 import xandikos.webdav as Wd
@@ -44,6 +45,11 @@ def deref(href, prefix):
     if not path.startswith(pfx + "/") and path != pfx:
         return None
     return path[len(pfx):] or "/"
+
+
+def _member_names(app, path_info):
+    r = app.backend.get_resource(path_info.rstrip("/"))
+    return [n for (n, m) in r.members()]
 
 
 def _names_of(app, path_info):
@@ -170,7 +176,25 @@ def body_collection(cname, check=True):
     want = {("collection", "/user/calendars"), ("collection", "/user/calendars/cal"),
             ("collection", "/user/calendars/" + cname)}
     ok = None not in got and set(got) == want and len(got) == 3
-    return (ok, "listed")
+    if not ok:
+        return (False, "listed")
+    # POST add-member to the new collection and to the calendar: the Location, dereferenced as sent, is the
+    # member that was created (and nothing else was)
+    for target in ("/user/calendars/" + cname + "/", "/user/calendars/cal/"):
+        before = _member_names(app, target)
+        r = mweb.call(app, "POST", target, body=b"ok", content_type="text/calendar", prefix=prefix, wsgi=wsgi)
+        if r.status_class != "2xx":
+            return (True, "post-refused")
+        created = [n for n in _member_names(app, target) if n not in before]
+        loc = r.header("Location")
+        if len(created) != 1 or loc is None:
+            return (False, "post-location")
+        pi = deref(loc, prefix)
+        if pi is None or _names_of(app, pi) != ("member", created[0]):
+            return (False, "post-location")
+        if posixpath.dirname(pi) != target.rstrip("/"):
+            return (False, "post-location")
+    return (True, "listed")
 
 
 def h_collection(cname: str) -> bool:
